@@ -111,7 +111,7 @@ def _record(self, timeout, run, box):
     exact = hasattr(searcher, '_strings')
     pats = rec.annot['pats'] if rec.annot is not None else None
     W = self.searchwindowsize or 0
-    rec.emit(e='call', pats=pats, W=W, tmo=tmo_class(timeout), exact=exact)
+    rec.emit(e='call', pats=pats, W=W, tmo=tmo_class(timeout), exact=exact, mode='sync', ready=0)
     nreads0 = len(sp.reads)
     raised = ''
     idx = -1
